@@ -387,10 +387,41 @@ def _defaults_case(draw):
           if p['kind'] == 'BOOL':
             v = (v == 'True')
           p['default'] = v
+  twist = draw(st.sampled_from(['none', 'none', 'none', 'extreme_bounds',
+                                'bad_default']))
+  if twist == 'extreme_bounds' and shape == 'flat':
+    # DOUBLE ranges close to the limits of a double (default seeding uses no
+    # numpy RNG, so the 1e150 cap of harness/spaces.py is not needed here)
+    for p in spec['params']:
+      if p['kind'] == 'DOUBLE' and p.get('scale') in (None, 'LINEAR'):
+        lo, hi = draw(st.sampled_from([
+            (-1e308, 1e308), (1e308, 1.7e308), (-1.7e308, -1e308),
+            (-1.79e308, 1.79e308), (0.0, 1.79e308), (8e307, 9e307)]))
+        p.update(lo=lo, hi=hi)
+        p.pop('default', None)
+  if twist == 'bad_default':
+    # a default outside the domain of an INTEGER / DISCRETE / CATEGORICAL
+    # parameter: the seeding must refuse it (or repair it), never suggest it
+    for p in oi.all_params(spec):
+      if p['kind'] == 'INTEGER':
+        p['default'] = draw(st.sampled_from([p['lo'] - 1, p['hi'] + 1]))
+        break
+      if p['kind'] == 'DISCRETE':
+        p['default'] = max(p['values']) + 1
+        break
+      if p['kind'] == 'CATEGORICAL':
+        p['default'] = 'not-a-category'
+        break
   via = draw(st.sampled_from(['function', 'decorator', 'policy']))
-  return {'space': spec, 'via': via, 'count': draw(st.integers(1, 4)),
+  extreme = twist == 'extreme_bounds'
+  # with ranges near DBL_MAX only the seeding itself is exercised: numpy's own
+  # rng.uniform raises on them, which is not a vizier property
+  return {'space': spec, 'via': via,
+          'count': 1 if extreme else draw(st.integers(1, 4)),
+          'twist': twist,
           'seed': draw(st.integers(0, 2 ** 16)),
-          'prior_trials': draw(st.sampled_from([0, 0, 0, 1, 3]))}
+          'prior_trials': 0 if extreme else draw(
+              st.sampled_from([0, 0, 0, 1, 3]))}
 
 
 def defaults_strategy():
@@ -887,7 +918,17 @@ def check_defaults(case):
           *spaces.classes_of(spec))
   if any('default' in p for p in oi.all_params(spec)):
     out.cls('has_default')
-  problem = spaces.problem(spec)
+  if case.get('twist') == 'extreme_bounds':
+    out.cls('extreme_double_bounds')
+  if case.get('twist') == 'bad_default':
+    out.cls('out_of_domain_default')
+  try:
+    problem = spaces.problem(spec)
+  except ValueError as e:
+    if case.get('twist') == 'bad_default':
+      out.cls('refused_at_build')  # a builder that validates defaults is fine
+      return out
+    raise
   space = problem.search_space
   answered = 0
 
@@ -993,6 +1034,8 @@ def families(tier):
                   required_classes=('conditional', 'flat', 'via_function',
                                     'via_decorator', 'via_policy',
                                     'has_default', 'seed_trial_judged',
+                                    'extreme_double_bounds',
+                                    'out_of_domain_default',
                                     'scale_LOG', 'degenerate')),
       core.Family('gp_seeding', check_session, strategy=gp_seeding_strategy,
                   budget={'quick': 64, 'thorough': 1200},
